@@ -248,7 +248,7 @@ class ParseMCNPCell:
                 keywords['lattice'] = self.parse_lat_kw(kw_list)
             elif 'trcl' in elt:
                 keywords['trcl'] = self.parse_trcl_kw(elt, kw_list)
-            elif 'u' in elt:
+            elif elt == 'u':
                 keywords['u'] = int(float(kw_list.pop()))
             elif 'rho' in elt:
                 # only relevant for LIKE n BUT cells
